@@ -18,12 +18,17 @@ def checks():
         cov = ev.get("coverage", {})
         nk = len(ev.get("known_findings", []) or [])
         if c["engine"] == "sx":
-            what = "%s paths, %s obligations (%s decided by the solver), %.0f s" % (
-                cov.get("evaluations"), cov.get("obligations"),
-                (cov.get("obligations") or 0) - (cov.get("trivially_true_obligations") or 0), ev.get("wall_s", 0))
+            what = "%s paths, %s obligations, %s solver queries (path feasibility and obligations), %.0f s" % (
+                cov.get("evaluations"), cov.get("obligations"), cov.get("queries"), ev.get("wall_s", 0))
+            il = cov.get("interleavings")
+            if il:
+                what += "; plus %s scenario queries, %s schedules replayed on real threads" % (il.get("evaluations"), il.get("traces_validated_against_impl"))
         else:
             what = "%s scenario queries, %s schedules replayed on real threads, %.0f s" % (
                 cov.get("evaluations"), cov.get("traces_validated_against_impl"), ev.get("wall_s", 0))
+            sq = cov.get("sequential_part")
+            if sq:
+                what += "; plus a sequential part of %s paths, %s obligations" % (sq.get("evaluations"), sq.get("obligations"))
         if nk:
             what += "; %d known-finding line(s)" % nk
         out.append("| %s | %s | %s | %s |" % (pid, "E1 sx" if c["engine"] == "sx" else "E2 cfa", c["level_claimed"]["category"], what))
